@@ -2,6 +2,8 @@ import NdnProofs.Lemmas.Lvs.Sanity
 import NdnProofs.Lemmas.Lvs.Sem
 import NdnProofs.Lemmas.Lvs.Example
 import NdnProofs.Lemmas.Lvs.CtxFree
+import NdnProofs.Lemmas.Lvs.CompileVDet
+import NdnProofs.Lemmas.Lvs.CompileStatic
 /-!
 # C12 — the signing check holds exactly when the schema lets that key sign that packet
 
@@ -140,6 +142,16 @@ example : CtxFree model ∧ matchTree model allFns [cK, cE] 0 [] = [] := by
   · subst hpe; simp at hcl
   · subst hpe; simp at hcl; subst hcl; simp at ho
     rcases ho with rfl | rfl <;> exact Or.inl ⟨_, rfl⟩
+/-- **check_iff_compiled.** `check_iff` for the output of the compiler model on any AST the parser can produce
+    (`Schema.WF`): the two structural hypotheses (`Sane`, `VDet`) are theorems about the compiler
+    (`compile_built`, `compile_vdet`), so for a compiled schema the signing check answers yes iff the schema tree
+    lets that key sign that packet - whatever the schema, with no side condition on the model. -/
+theorem check_iff_compiled (S : Schema) (hwf : S.WF) (m : Model) (syms : List String)
+    (h : compile S = .ok (m, syms)) (env : FnEnv) (henv : EnvTotal env) (pkt key : List Bytes) :
+    check m env pkt key = .ok true ↔
+      ∃ p k, dropDigest pkt = some p ∧ dropDigest key = some k ∧ Signs m (pureOf env) p k :=
+  check_iff m (compile_built S hwf m syms h).sane (compile_vdet S m syms h) env henv pkt key
+
 open Example in
 /-- `/k/a` may sign `/d/a` … -/
 example : check model allFns [cD, cA] [cK, cA] = .ok true := by rfl
